@@ -8,6 +8,7 @@ host's own exception mechanism.
 """
 from __future__ import annotations
 
+import os
 import ast
 import builtins
 import importlib
@@ -412,9 +413,12 @@ class Exec:
             try:
                 run_path()
                 self.paths += 1
-            except PathEnd:
+            except PathEnd as pe:
                 # path cut; obligations recorded before the cut stay
                 self.paths += 1
+                if os.environ.get("PYVC_PATHS"):
+                    import sys as _s
+                    _s.stderr.write(f"[path {''.join('T' if d else 'F' for d in self.decisions)}] ends: {getattr(pe, 'why', '')}\n")
             self.path_id = "".join("T" if d else "F" for d in self.decisions)
 
     # ------------------------------------------------------------ functions
@@ -477,6 +481,9 @@ class Exec:
 
     def exec_stmt(self, st, frame):
         self.executed.add(id(st))
+        if os.environ.get("PYVC_TRACE"):
+            import sys as _s
+            _s.stderr.write(f"  L{getattr(st, 'lineno', '?')} {type(st).__name__}\n")
         m = getattr(self, "st_" + type(st).__name__, None)
         if m is None:
             raise Unsupported(f"statement {type(st).__name__} at line {st.lineno}")
@@ -849,6 +856,12 @@ class Exec:
                 attr_writes.append(n)
             elif isinstance(n, ast.Call) and isinstance(n.func, ast.Attribute) and n.func.attr in _MUTATORS:
                 mut_calls.append(n.func.value)
+        # writes made on behalf of the loop body by the methods it calls on `self`: an inlined callee's own stores to
+        # self.<field> (transitively), a contracted callee's `modifies` clause (self.<field> and argument lists)
+        callee_fields, callee_heaps = self._callee_writes(st, frame)
+        for fld in sorted(callee_fields):
+            attr_writes.append(ast.Attribute(value=ast.Name(id="self", ctx=ast.Load()), attr=fld, ctx=ast.Store()))
+        mut_calls.extend(callee_heaps)
         types = spec.get("types", {})
         for name in sorted(names | set(spec.get("havoc", []))):
             if not frame.has(name):
@@ -884,6 +897,67 @@ class Exec:
             oname, _, fname = fld.partition(".")
             obj = frame.lookup(oname)
             obj.fields[fname] = self.havoc_value(fname, obj.fields[fname], types.get(fname))
+
+    def _callee_writes(self, st, frame):
+        """(fields of self, receiver expressions) written by methods of the same class called in the loop `st`."""
+        fields, heaps = set(), []
+        if frame.cls is None or not frame.has("self"):
+            return fields, heaps
+        cmod, cnode = frame.cls
+        seen = set()
+
+        def method(name):
+            r = self.repo.find_method(cmod, cnode, name)
+            return r if r and r[0] == "func" else None
+
+        def scan(body_nodes, depth, argmap):
+            for n in body_nodes:
+                for c in ast.walk(n):
+                    if isinstance(c, ast.Attribute) and isinstance(c.ctx, ast.Store) and isinstance(c.value, ast.Name) and c.value.id == "self":
+                        fields.add(c.attr)
+                    if isinstance(c, ast.Call) and isinstance(c.func, ast.Attribute) and c.func.attr in _MUTATORS:
+                        recv = c.func.value
+                        if isinstance(recv, ast.Attribute) and isinstance(recv.value, ast.Name) and recv.value.id == "self":
+                            heaps.append(recv)
+                        elif isinstance(recv, ast.Name) and recv.id in argmap:
+                            heaps.append(argmap[recv.id])
+                    if not (isinstance(c, ast.Call) and isinstance(c.func, ast.Attribute) and isinstance(c.func.value, ast.Name) and c.func.value.id == "self"):
+                        continue
+                    r = method(c.func.attr)
+                    if r is None:
+                        continue
+                    target = f"{r[1].name}:{r[2].name}.{r[3].name}"
+                    fn = r[3]
+                    params = [a.arg for a in fn.args.args[1:]] + [a.arg for a in fn.args.kwonlyargs]
+                    amap = {}
+                    for pn, a in zip([a.arg for a in fn.args.args[1:]], c.args):
+                        amap[pn] = a if depth == 0 else None
+                    for k in c.keywords:
+                        if k.arg:
+                            amap[k.arg] = k.value if depth == 0 else None
+                    con = self.registry.get(target)
+                    if con is not None and target not in self.contract.inline and not con.always_inline and target != self.contract.target:
+                        for path in con.modifies:
+                            on, _, fn_ = path.partition(".")
+                            if on == "self" and fn_:
+                                fields.add(fn_)
+                            elif not fn_ and amap.get(on) is not None:
+                                heaps.append(amap[on])
+                        continue
+                    if target == self.contract.target:
+                        for path in self.contract.modifies:
+                            on, _, fn_ = path.partition(".")
+                            if on == "self" and fn_:
+                                fields.add(fn_)
+                        continue
+                    if (target, depth) in seen or depth > 4:
+                        continue
+                    seen.add((target, depth))
+                    scan(fn.body, depth + 1, {k: v for k, v in amap.items() if v is not None})
+
+        scan(st.body, 0, {})
+        # fields the body itself stores are handled by the caller; keep only real attribute names
+        return fields, heaps
 
     def havoc_heap(self, name, obj, ty):
         if isinstance(obj, HSet):
